@@ -266,15 +266,16 @@ func runBatcherImpl(c BatcherCase) (evs []Ev, big, invalid int, terminated bool)
 	default:
 	}
 	sh.CancelFunc()
-	// the batcher may be parked in a blocking send of a tick that fired after the last drain (its
-	// sends do not watch the termination context): keep receiving, and discard, until it has returned
-	nlog := len(evs)
+	// The batcher looks at the termination context only between steps: a message step or a tick that has
+	// started runs to its end (its sends are blocking and do not watch the context).  So everything it still
+	// sends until StartBatching returns belongs to COMPLETE steps, and keeping all of it makes the log end
+	// at a step boundary whatever the scheduling was (a log cut in the middle of a tick's flush cannot be
+	// explained by the model).
 	for i := 0; i < 2000; i++ {
 		if step(nil, 50*time.Millisecond) == "done" {
 			break
 		}
 	}
-	evs = evs[:nlog]
 	close(statsCh)
 	<-statsDone
 	return
